@@ -219,14 +219,17 @@ def _streams(ctx: Ctx, item):
         out = []
         for _ in range(k):
             d = db.by_key[draw(st.sampled_from(keys))]
-            out.append((d, draw(gen.payloads(d, mode="accepted", extra_bytes=False)), draw(st.integers(0, 253))))
-        return out
+            # source 170 -> destination 85 puts AA 55 into the identifier bytes of an addressed PGN (legal inside a packet)
+            src, dest = draw(st.one_of(st.tuples(st.integers(0, 253), st.just(255)), st.just((170, 85))))
+            out.append((d, draw(gen.payloads(d, mode="accepted", extra_bytes=False)), src, dest))
+        return out, draw(st.lists(st.integers(1, 400), max_size=10))
 
-    def one(ms, fmt):
+    def one(mc, fmt):
+        ms, rawcuts = mc
         ctx.count()
         pks = []
-        for d, (payload, nbytes, _), src in ms:
-            m = ck.message(d, payload, nbytes, src, 255, 3)
+        for d, (payload, nbytes, _), src, dest in ms:
+            m = ck.message(d, payload, nbytes, src, dest, 3)
             if m is None:
                 continue
             try:
@@ -235,7 +238,7 @@ def _streams(ctx: Ctx, item):
                 continue
         if not pks:
             return []
-        case = {"format": fmt, "messages": [[d.key, p[0].to_bytes(p[1], "little").hex(), src] for d, p, src in ms]}
+        case = {"format": fmt, "messages": [[d.key, p[0].to_bytes(p[1], "little").hex(), src, dest] for d, p, src, dest in ms], "cuts": rawcuts}
         ctx.nt(repr(case))
         ctx.klass("stream:" + fmt)
         stream = b"".join(pks)
@@ -249,7 +252,9 @@ def _streams(ctx: Ctx, item):
         if aio is not None and not out:
             # the Yacht Devices gateway prefixes received lines with time and direction; framing is unchanged
             cl = [b"00:00:01.000 R " + p for p in pks] if fmt == "yd" else pks
-            got = aio.client_frames(fmt, b"".join(cl))
+            total = len(b"".join(cl))
+            cuts = sorted({c % total for c in rawcuts if c % total}) if total > 1 else []
+            got = aio.client_frames(fmt, b"".join(cl), cuts=cuts)
             exp = aio.reference_delivery(fmt, cl)
             ctx.klass("client_path_messages", len(exp))
             if got != exp:
@@ -265,7 +270,7 @@ def run(ctx: Ctx):
     n = 12 if ctx.quick else 400
     shards = [enc[i::32] for i in range(32)]
     pmap(ctx, _work, [(s, n, 1 if ctx.quick else 4) for s in shards if s])
-    short = [d.key for d in db.defs if d.encodable and (d.fast or d.nbytes() < 8)] or enc
+    short = [d.key for d in db.defs if d.encodable and (d.fast or d.nbytes() < 8)] + ["59904/isoRequest"] * 6 or enc
     pmap(ctx, _streams, [(short, 15 if ctx.quick else 300)] * 16)
     ctx.notes["encodable_definitions"] = len(enc)
 
@@ -288,8 +293,9 @@ def replay(ctx: Ctx, case):
         sub.known_open = {}
 
         def fake(check, *a, **k):
-            ms = [(db.by_key[k_], (int.from_bytes(bytes.fromhex(h), "little"), len(bytes.fromhex(h)), []), src) for k_, h, src in case["messages"]]
-            holder["out"] = check(ms, case["format"])
+            ms = [(db.by_key[m[0]], (int.from_bytes(bytes.fromhex(m[1]), "little"), len(bytes.fromhex(m[1])), []), m[2], m[3] if len(m) > 3 else 255)
+                  for m in case["messages"]]
+            holder["out"] = check((ms, case.get("cuts", [])), case["format"])
         sub.hyp = fake
         _streams(sub, ([m[0] for m in case["messages"]], 1))
         return holder.get("out", [])
